@@ -61,7 +61,11 @@ class SystemComponent(BaseComponent):
         self._tasks = [
             asyncio.create_task(component.run_forever(state_consumer, state_producer))
             for component in components.values()
-        ] + [asyncio.create_task(self.scheduler.run_forever())]
+        ]
+        # messages published before this component came up (an Input, a StopComponent)
+        # are replayed while it subscribes below, and handling them uses the nested
+        # scheduler: it has to be set up by then, not merely scheduled to be
+        await self.scheduler.run_forever()
 
         if self.adapter:
             self.adapter.adapter.setup_adapter(components, self.scheduler._wiring)
